@@ -44,10 +44,21 @@ def dump_tree(o):
     return [type(o).__name__, tag, [dump_tree(k) for k in children(o)]]
 
 
+def mk_user_class(name, base):
+    """a user-supplied class for the rule `name`, optionally a Python subclass of another user class"""
+    def __init__(self, **kwargs):
+        for k, v in kwargs.items():
+            setattr(self, k, v)
+    return type(name, (base,) if base else (), {"__init__": __init__})
+
+
 def run_case(case):
     out = {}
+    user = {}
+    for name, base in case.get("user") or []:
+        user[name] = mk_user_class(name, user[base] if base else None)
     try:
-        mm = metamodel_from_str(case["grammar"])
+        mm = metamodel_from_str(case["grammar"], classes=list(user.values())) if user else metamodel_from_str(case["grammar"])
     except Exception as ex:  # the generated grammar must always load
         return {"harness": "grammar rejected: %s: %s" % (type(ex).__name__, ex)}
     out["classes"] = {}
@@ -56,9 +67,22 @@ def run_case(case):
             continue
         try:
             c = mm[name]
-            out["classes"][name] = {"type": c._tx_type, "inh": [x.__name__ for x in c._tx_inh_by]}
+            mmcls = {id(mm[n]) for n in case["class_names"] if n != "OBJECT"}
+            out["classes"][name] = {"type": c._tx_type, "inh": [x.__name__ for x in c._tx_inh_by],
+                                    "py": [x.__name__ for x in c.__mro__[1:] if id(x) in mmcls]}
         except Exception as ex:
             out["classes"][name] = {"type": "missing:" + type(ex).__name__, "inh": []}
+    if case.get("nomm"):
+        # the non-default variant of the provider: lookup through parser._instances instead of the tree search
+        from textx.scoping.providers import PlainName
+        mm.register_scope_providers({"*.*": PlainName(multi_metamodel_support=False)})
+    other_model = None
+    if case.get("other_text"):
+        # another model of the same metamodel, loaded before and kept alive: its objects carry the same names
+        try:
+            other_model = mm.model_from_str(case["other_text"])
+        except Exception as ex:
+            return {"harness": "loading the other model failed: %s: %s" % (type(ex).__name__, ex)}
     b = case.get("builtins")
     keys = {}
     if b is not None:
@@ -127,6 +151,7 @@ def run_case(case):
                 res.append(target(v))
     refs_of(model)
     out["ok"] = res
+    out["other_alive"] = other_model is not None
     return out
 
 
